@@ -79,6 +79,21 @@ static void st_wd_arm(long ms) {
 }
 static void st_wd_disarm(void) { struct itimerval it; memset(&it, 0, sizeof it); setitimer(ITIMER_REAL, &it, NULL); g_wd_armed = 0; }
 
+/* The library prints diagnostics with printf ("Not enough memory to perform factorization.");
+ * keep them out of the protocol stream: the protocol continues on a duplicate of fd 1, fd 1 itself
+ * goes to /dev/null. */
+#include <fcntl.h>
+static void st_split_stdout(ctx_t *c) {
+    static FILE *proto;
+    if (proto) { c->out = proto; return; }
+    fflush(stdout);
+    int pfd = dup(1), nul = open("/dev/null", O_WRONLY);
+    if (pfd < 0 || nul < 0) return;
+    dup2(nul, 1); close(nul);
+    proto = fdopen(pfd, "w"); static char pbuf[1 << 16]; setvbuf(proto, pbuf, _IOFBF, sizeof pbuf);
+    c->out = proto;
+}
+
 /* workspace of exactly lwork bytes; for align4 the block is 4 bytes longer and work = block + 4 so that
  * the byte after the workspace is still the first byte of the redzone */
 #define GUARD4 0x5aa5c33cu
